@@ -30,7 +30,7 @@ ASSUMPTIONS = ["ambiguous encodings (bool, integral floats for Discrete) are not
                "Discrete = Python int or numpy integer in [0, n)"]
 REQUIRED = ["C17:continue-after-rejection", "C17:malformed-rejected-in-time", "C17:no-effect-on-reject", "C17:malformed-never-executed", "C17:allocation-denoted",
             "C17:target-reached", "C17:residual-in-cash"]
-REQUIRED_CATS = ["action-container-reused:list", "action-container-reused:series", "action-container-reused:ndarray", "subclass-overrides-contains", "bad:B:subclass:over-budget", "box-open-on-one-side", "bad:B:open-high:below", "bad:B:open:nan", "bounds-exclude-zero", "fit-transformers", "per-contract-bounds", "second-episode", "box", "discrete", "with-cash", "nr-contracts", "delay:1", "delay:2"]
+REQUIRED_CATS = ["whole-lots", "action-container-reused:list", "action-container-reused:series", "action-container-reused:ndarray", "subclass-overrides-contains", "bad:B:subclass:over-budget", "box-open-on-one-side", "bad:B:open-high:below", "bad:B:open:nan", "bounds-exclude-zero", "fit-transformers", "per-contract-bounds", "second-episode", "box", "discrete", "with-cash", "nr-contracts", "delay:1", "delay:2"]
 REQUIRED_HITS = ["Broker.transact", "Broker.rebalance"]
 TECHNIQUE = "runtime monitoring with fault injection: malformed actions injected into episodes; Broker.transact hook proves nothing executed"
 LEVEL_TEXT = ("Fault enumeration over the kinds of malformed action x space type x delay, each injected at a random step of a real "
@@ -165,6 +165,13 @@ def case(ctx, i, tier):
         elif np.any(los > 0) or np.any(his < 0):
             # the all-zero vector is then out of bounds too (it merely looks like the null placeholder)
             bads = [("all-zero", np.zeros(m)), ("all-zero-list", [0.0] * m)] + bads[:2]
+    whole = False
+    if not disc and not asw and type(sp_) is BoxPortfolio and not per_contract and open_side is None and m >= 2 and rng.random() < 0.6:
+        # positions in WHOLE lots (fractional=False): every contract moves by its imbalance truncated toward zero - a
+        # contract less than one lot off target stays put, the others are traded whatever their place in the list
+        sp_ = BoxPortfolio(contracts, float(los[0]), float(his[0]), as_weights=False, fractional=False)
+        whole = True
+        ctx.cat("whole-lots")
     tr = Transmitter(grid)
     tr.add_events(evs)
     sink = ep.Sink()
@@ -234,6 +241,10 @@ def case(ctx, i, tier):
                         pxs = book_ask if w > 0 else book_bid
                         ctx.check("C17:target-reached", abs(q * c.multiplier * pxs - w * pre) <= 1e-9 * max(1.0, abs(w * pre)) + 1.01e-7 * c.multiplier * pxs,
                                   contract=c.symbol, got=q * c.multiplier * pxs, want=w * pre)
+                elif whole:
+                    wq = h0.get(c, 0.0) + int(w - h0.get(c, 0.0))
+                    ctx.check("C17:target-reached", q == wq, contract=c.symbol, got=q, want=wq, target=w, held=h0.get(c, 0.0),
+                              whole_lots=True, order=[x.symbol for x in contracts])
                 else:
                     ctx.check("C17:target-reached", abs(q - w) <= 1e-9 * max(1.0, abs(w)), contract=c.symbol, got=q, want=w)
             post = rb.context_post
